@@ -705,6 +705,10 @@ def shared(ctx):
     # the two spenders sit in the batch (C02.R3: one set, every input of every transaction, a repeated insert is an error)
     from rules.props import c02
     core.import_rules(ctx, [c02.r3_double_spend], "X02")
+    # the same for a faucet applied twice: the duplicate test must look at the state as it grows through the batch (handle_faucet_tx on the state being built, C19.R1/R3),
+    # not at the pre-batch state every parallel validation sees — otherwise two copies in one batch pass where one-at-a-time rejects the second
+    from rules.props import c19
+    core.import_rules(ctx, [c19.r1_faucet_first, c19.r3_dedup], "X19")
 
 
 RULES = [r1_inventory, r2_batch_commutativity, r3_ambient, r4_commitment_order, r5_globals, r6_parallel_isolation, r7_batch_invariant_reads, shared]
